@@ -106,9 +106,15 @@ def check_C01(tier, seed):
     datahub_stage(v, sd, binary, "C01_multi3", ds=["a", "b"], ent=["e1", "e2"], contents=c4, max_batch=1,
                   max_steps=3, acts=("store", "txn") if thorough else ("store",), tables=tabs, kinds=("ent", "look"),
                   rotate=True)
+    # (b') the same id in three datasets with references under one predicate: single + single + single, array + single,
+    #      single + array, deleted partials in between (merge of reference values across partials)
+    cr = [content(1, p=(1, ["e2"])), content(2, p=(2, ["e2", "e1"])), content(1, p=(1, ["e1"])), content(0, d=True)]
+    datahub_stage(v, sd, binary, "C01_refmerge", ds=["a", "b", "c"], ent=["e1", "e2"], contents=cr, max_batch=1,
+                  max_steps=4 if thorough else 3, acts=("store",), tables="plain", kinds=("look",), limits=(0,),
+                  allowed=[(d, "e1", c) for d in ("a", "b", "c") for c in (1, 2, 3, 4)])
     # (c) deeper random histories
     datahub_stage(v, sd, binary, "C01_sim", ds=["a", "b"], ent=["e1", "e2", "e3"], contents=c01_contents(),
-                  max_batch=2, max_steps=9 if thorough else 7, acts=("store", "txn"), tables=tabs, kinds=("ent", "look"),
+                  max_batch=2, max_steps=9 if thorough else 7, acts=("store", "txn", "reject"), tables=tabs, kinds=("ent", "look"),
                   sample=True, seed=seed, rotate=True, fan=6 if thorough else 5, target=60000 if thorough else 6000)
     v.assumptions = ["entity contents are those of the concretisation tables (harness/.../concretize.go)",
                      "ids <= 3, datasets <= 2, bounded history depth (small-scope hypothesis)",
@@ -141,7 +147,7 @@ def check_C02(tier, seed):
                   max_steps=3 if thorough else 2, acts=("store", "txn"), tables=tabs, kinds=("chg",), rotate=True)
     # (d) deeper sampled histories with readers
     datahub_stage(v, sd, binary, "C02_deep", ds=["a", "b"], ent=["e1", "e2", "e3"], contents=c4, max_batch=2,
-                  max_steps=9 if thorough else 7, acts=("store", "txn", "read"), readers=readers, tables=tabs,
+                  max_steps=9 if thorough else 7, acts=("store", "txn", "read", "reject"), readers=readers, tables=tabs,
                   kinds=("chg",), sample=True, seed=seed, rotate=True, fan=6 if thorough else 5, target=60000 if thorough else 6000)
     v.assumptions = ["change positions are compared numerically (tokens are the documented sequence numbers)",
                      "contents from the concretisation tables; ids <= 3; bounded depth"]
@@ -200,7 +206,16 @@ def ref_combos(steps, contents):
 def classify_c03(contents):
     def classify(r, d):
         q = d.get("query") or {}
-        if d["kind"] not in ("related", "restored:related") or not isinstance(q, dict) or not q.get("inverse"):
+        if d["kind"] not in ("related", "restored:related", "related-continued") or not isinstance(q, dict) or not q.get("inverse"):
+            return None
+        if d["kind"] == "related-continued":
+            # pages served through a continuation: only what is returned beyond the reference's answer counts
+            act = set(d["actual"] or [])
+            exp = set((d["expected"] or {}).get("subset_of") or []) & act
+            combos = ref_combos(r["steps"], contents)
+            for pair in act - exp:
+                if len(combos.get((pair.split(">")[1], q["start"]), ())) >= 2:
+                    return "C03-incoming-multi-relation"
             return None
         exp, act = set(d["expected"] or []), set(d["actual"] or [])
         if not isinstance(d["expected"], list):
@@ -605,6 +620,11 @@ def crash_data_stage(v, sd, binary, thorough, seed):
                   max_steps=3 if thorough else 2, acts=("store", "txn"), tables="plain,eqlen",
                   kinds=("ent", "chg", "look", "rel"), limits=(0, 1), classify=classify_c03(mc[:2]),
                   track_pre=True, replay_fn=CRASH, target=4000 if thorough else 300)
+    # a batch that was refused as a whole, then (parts of) it sent again, then the kill
+    datahub_stage(v, sd, binary, "CR_reject", ds=["a"], ent=["e1", "e2"], contents=mc[:2], max_batch=1,
+                  max_steps=3 if thorough else 2, acts=("store", "reject"), tables="plain",
+                  kinds=("ent", "chg", "look", "rel"), limits=(0, 1), classify=classify_c03(mc[:2]),
+                  track_pre=True, replay_fn=CRASH, require_act="reject")
     datahub_stage(v, sd, binary, "CR_batch", ds=["a"], ent=["e1", "e2"], contents=mc, max_batch=2,
                   max_steps=2, acts=("store",), tables="plain", kinds=("ent", "chg", "look", "rel"), limits=(0, 1),
                   classify=classify_c03(mc), track_pre=True, replay_fn=CRASH, target=3000 if thorough else 200)
@@ -930,7 +950,7 @@ def eh_stage(v, sd, binary, name, mode, max_b, pages, retries=(0,)):
                  % (name, verif.tla_value(set(pages)), verif.tla_value(set(retries))))
     with open(os.path.join(sd, name + ".cfg"), "w") as fh:
         fh.write("SPECIFICATION Spec\nCONSTANTS MaxB = %d PageSizes <- MC_Pages MaxRetriesSet <- MC_Retries Mode = \"%s\"\n"
-                 "INVARIANTS Complement ReportedOnce StopsAtMax NoLoss BoundedReruns\nCONSTRAINT EmitCase\nCHECK_DEADLOCK FALSE\n"
+                 "INVARIANTS Complement ReportedOnce StopsAtMax NoLoss BoundedReruns NoRerunAfterKill\nCONSTRAINT EmitCase\nCHECK_DEADLOCK FALSE\n"
                  % (max_b, mode))
     out = os.path.join(v.wd, name + ".out")
     st = verif.run_tlc(sd, name, out, workers=4)
@@ -950,7 +970,7 @@ def check_C17(tier, seed):
     # every failing subset x maxItems x page size for runs of up to MaxB entities
     eh_stage(v, sd, binary, "C17_log", "log", 7 if thorough else 5, (1, 2, 3, 10) if thorough else (1, 2, 10))
     # reRun: retries x number of executions the sink keeps failing
-    eh_stage(v, sd, binary, "C17_rerun", "rerun", 1, (10,), retries=(1, 2) if thorough else (1, 2))
+    eh_stage(v, sd, binary, "C17_rerun", "rerun", 3, (1,), retries=(1, 2, 3) if thorough else (1, 2))
     v.assumptions = ["the sink is a scripted wrapper around the job's DatasetSink that rejects any batch containing an entity "
                      "of the failing set (log cases) or every batch of the first k executions (reRun cases)",
                      "handler invocations are observed through the job runner's logger (zap observer)",
